@@ -495,6 +495,13 @@ func (e *Env) evalCall(x *Expr) (SV, error) {
 		if err != nil {
 			return SV{}, err
 		}
+		if len(a) == 1 && !isSliceSort(a[0].T.Sort) {
+			for _, at := range v.tm.abstract {
+				if at.Sort == a[0].T.Sort && at.SeqLen != "" {
+					return SV{T: c.App(at.SeqLen, SInt, a[0].T)}, nil
+				}
+			}
+		}
 		if len(a) != 1 || !isSliceSort(a[0].T.Sort) {
 			return SV{}, serr("len: one slice argument in %s", x)
 		}
@@ -535,6 +542,19 @@ func (e *Env) evalCall(x *Expr) (SV, error) {
 	}
 	if pf, ok := v.pureAs[x.Name]; ok {
 		return e.applyPure(pf, args, x)
+	}
+	if u, ok := v.ufs[x.Name]; ok {
+		if len(args) != len(u.PSorts) {
+			return SV{}, serr("%s: expected %d arguments, got %d", u.Name, len(u.PSorts), len(args))
+		}
+		ts := make([]*Term, len(args))
+		for i, a := range args {
+			if a.T.Sort != u.PSorts[i] {
+				return SV{}, serr("%s: argument %d has sort %s, expected %s", u.Name, i+1, a.T.Sort.Name, u.PSorts[i].Name)
+			}
+			ts[i] = a.T
+		}
+		return SV{T: v.c.App(u.Name, u.Ret, ts...), GoT: u.RetGoT}, nil
 	}
 	return SV{}, serr("unknown function %q in %s", x.Name, x)
 }
